@@ -64,6 +64,10 @@ SNIP = [
     ("def extend(point):\n    return point + (0,)\nq = extend((1, 2))\nprint(q)", 1),
     ("a = (1, 2, 3)\nb = a[:2] + (9,)\nprint(b)", 1), ("c = (1, 2) * 2 + (3,)\nprint(c)", 1),
     ("def pair(v):\n    return (v, v)\np4 = pair(1) + pair('a')\nprint(p4)", 1),
+    # a method the type tables do not know, and one they do (attribute lookups walk shared parent types)
+    ("price = 2.5\nprint(price.hex())", 0), ("price = 2.5\nwhole = price.is_integer()\nprint(whole + 'x')", 0),
+    ("count = 3\nprint(count.bit_count())", 0), ("count = 3\nparts = count.as_integer_ratio()\nprint(parts)", 0),
+    ("word = 'abc'\nprint(word.casefold_x())", 0), ("word = 'abc'\nn = word.upper().count('A')\nprint(n + 'x')", 0),
 ]
 WRAP = ["{}", "def w():\n{i}\nw()", "if True:\n{i}", "for q in range(2):\n{i}", "class W:\n{i}", "while False:\n{i}",
         "try:\n{i}\nexcept Exception:\n    pass"]
